@@ -1,8 +1,12 @@
 package main
 
 import (
+	"encoding/json"
 	"fmt"
+	"os"
+	"path/filepath"
 
+	"verif/internal/asmgen"
 	"verif/internal/sym"
 	"verif/spec/w65816"
 )
@@ -15,27 +19,28 @@ func opName(op int) string {
 
 // PropDef describes how one property is decided.
 type PropDef struct {
-	ID          string
-	Title       string
-	Level       string
-	Patterns    []string // packages loaded into the engine
-	Jobs        func(tier string) []sym.Job
-	Bounds      []string
-	Outside     []string
-	Assumptions []string
-	Explanation string
-	Exhaustive  bool
-	PermuteMaps bool
-	Unwind      int
-	SetupPkg    string
-	Setup       string
-	SingleSolver bool
-	Solver      string // primary solver back end (default z3)
-	Fallbacks   []string // solver back ends tried when z3 answers unknown
-	TimeoutQuickMs, TimeoutThoroughMs int
+	ID                                    string
+	Title                                 string
+	Level                                 string
+	Patterns                              []string // packages loaded into the engine
+	Jobs                                  func(tier string) []sym.Job
+	Bounds                                []string
+	Outside                               []string
+	Assumptions                           []string
+	Explanation                           string
+	Exhaustive                            bool
+	PermuteMaps                           bool
+	Unwind                                int
+	SetupPkg                              string
+	Setup                                 string
+	SingleSolver                          bool
+	Solver                                string          // primary solver back end (default z3)
+	PreCheck                              func() []string // coverage gaps that make the run inconclusive
+	Fallbacks                             []string        // solver back ends tried when z3 answers unknown
+	TimeoutQuickMs, TimeoutThoroughMs     int
 	ConformanceQuick, ConformanceThorough int
-	Overlay     func() (map[string][]byte, error) // engine overlay (in-package harnesses)
-	NativeOverlay func(work string) string          // go build -overlay file for the replayer
+	Overlay                               func() (map[string][]byte, error) // engine overlay (in-package harnesses)
+	NativeOverlay                         func(work string) string          // go build -overlay file for the replayer
 }
 
 func (p *PropDef) timeoutMs(tier string) int {
@@ -67,6 +72,69 @@ func (p *PropDef) nativeOverlayFile(work string) string {
 		return ""
 	}
 	return p.NativeOverlay(work)
+}
+
+// ---- generated asm harnesses (shared by C03, C07, C19)
+
+var asmMethodsCache []asmgen.Method
+
+func asmMethods() []asmgen.Method {
+	if asmMethodsCache == nil {
+		ms, err := asmgen.Load(verifDir)
+		if err != nil {
+			fmt.Fprintln(os.Stderr, "asmgen:", err)
+			return nil
+		}
+		asmMethodsCache = ms
+	}
+	return asmMethodsCache
+}
+
+const (
+	asmGenPath  = verifDir + "/harness/asmgen/gen.go"
+	asmGen7Path = verifDir + "/harness/asmgen7/gen.go"
+	asmRegPath  = verifDir + "/harness/all/zz_asmgen.go"
+)
+
+func asmOverlay() (map[string][]byte, error) {
+	ms := asmMethods()
+	if ms == nil {
+		return nil, fmt.Errorf("cannot enumerate asm.Emitter methods")
+	}
+	gen, gen7, reg, err := asmgen.Generate(ms)
+	if err != nil {
+		return nil, err
+	}
+	return map[string][]byte{asmGenPath: []byte(gen), asmGen7Path: []byte(gen7), asmRegPath: []byte(reg)}, nil
+}
+
+func asmNativeOverlay(work string) string {
+	ov, err := asmOverlay()
+	if err != nil {
+		return ""
+	}
+	repl := map[string]string{}
+	i := 0
+	for path, content := range ov {
+		f := filepath.Join(work, fmt.Sprintf("overlay-%d.go", i))
+		i++
+		os.WriteFile(f, content, 0o644)
+		repl[path] = f
+	}
+	b, _ := json.Marshal(map[string]interface{}{"Replace": repl})
+	of := filepath.Join(work, "overlay.json")
+	os.WriteFile(of, b, 0o644)
+	return of
+}
+
+func asmUnclassified() []string {
+	var out []string
+	for _, m := range asmMethods() {
+		if m.Kind == "unclassified" {
+			out = append(out, "exported method "+m.Name+" is not covered (unclassified): "+m.Why)
+		}
+	}
+	return out
 }
 
 var props []*PropDef
@@ -107,9 +175,9 @@ func init() {
 			}
 			return js
 		},
-		Bounds:      []string{"one instruction (Step is loop-free; MVN/MVP move one byte per Step) from an arbitrary native-mode state", "all 256 opcodes x 4 (m,x) settings x 2 interpreters enumerated as separate jobs; every register, flag, hidden register copy and all 16 MiB of memory symbolic", "instruction sequences: by induction, the post-state again satisfies the only invariant assumed of the pre-state (flag bytes in {0,1})"},
-		Outside:     []string{"emulation mode (E=1 before the step)", "pending interrupts", "decimal ADC/SBC with invalid BCD digits; the V flag after decimal ADC/SBC", "WAI/STP wake-up", "cycle counts (C02/C12)"},
-		Explanation: "real Step of either interpreter vs. spec/w65816 reference on the abstraction of the same symbolic pre-state and memory; one labelled obligation per architectural component",
+		Bounds:           []string{"one instruction (Step is loop-free; MVN/MVP move one byte per Step) from an arbitrary native-mode state", "all 256 opcodes x 4 (m,x) settings x 2 interpreters enumerated as separate jobs; every register, flag, hidden register copy and all 16 MiB of memory symbolic", "instruction sequences: by induction, the post-state again satisfies the only invariant assumed of the pre-state (flag bytes in {0,1})"},
+		Outside:          []string{"emulation mode (E=1 before the step)", "pending interrupts", "decimal ADC/SBC with invalid BCD digits; the V flag after decimal ADC/SBC", "WAI/STP wake-up", "cycle counts (C02/C12)"},
+		Explanation:      "real Step of either interpreter vs. spec/w65816 reference on the abstraction of the same symbolic pre-state and memory; one labelled obligation per architectural component",
 		ConformanceQuick: 64, ConformanceThorough: 2048,
 	})
 	modeNames := []string{"m0x0", "m0x1", "m1x0", "m1x1", "emu"}
@@ -126,9 +194,9 @@ func init() {
 			}
 			return js
 		},
-		Bounds:      []string{"one Step of each interpreter from one common arbitrary state: 256 opcodes x {4 native width settings, emulation mode}; all registers, hidden copies, D flag, stop latch, cycle counters, interrupt latch (none/NMI/IRQ) and 16 MiB memory symbolic", "any number of steps: by induction (equal post-states are a common pre-state again)"},
-		Outside:     []string{"emulation mode with m=0 or x=0 (unreachable: XCE forces both)", "interrupt entry with the handler opcode inside the pushed stack frame (see assumptions)", "OnPC/OnWDM callbacks (C12)"},
-		Explanation: "both real Step functions run on the same symbolic state and memory; every exported register/flag/counter, the return values, failure status and memory (extensional) are compared",
+		Bounds:           []string{"one Step of each interpreter from one common arbitrary state: 256 opcodes x {4 native width settings, emulation mode}; all registers, hidden copies, D flag, stop latch, cycle counters, interrupt latch (none/NMI/IRQ) and 16 MiB memory symbolic", "any number of steps: by induction (equal post-states are a common pre-state again)"},
+		Outside:          []string{"emulation mode with m=0 or x=0 (unreachable: XCE forces both)", "interrupt entry with the handler opcode inside the pushed stack frame (see assumptions)", "OnPC/OnWDM callbacks (C12)"},
+		Explanation:      "both real Step functions run on the same symbolic state and memory; every exported register/flag/counter, the return values, failure status and memory (extensional) are compared",
 		ConformanceQuick: 64, ConformanceThorough: 2048,
 	})
 	props = append(props, &PropDef{
@@ -146,10 +214,10 @@ func init() {
 			}
 			return js
 		},
-		Bounds:      []string{"one Step from an arbitrary state: 2 interpreters x 256 opcodes x 5 mode settings; registers and memory symbolic", "the obligation is the engine's own set of Go runtime checks (index, slice, nil, divide, type assertion, explicit panic, log.Fatalf) on every feasible path"},
-		Outside:     []string{"where a wrapped access lands (bank $00) is compared with the reference model in C01", "partially mapped buses (an unmapped address is meant to fail loudly, C13)"},
-		Assumptions: []string{"backends hold exactly 2^24 bytes (RAM over a 16 MiB slice / closures indexing a 16 MiB slice): an address >= 2^24 reaching the bus or a backend is a Go index-out-of-range failure, so 'no failure' implies every access is below 2^24"},
-		Explanation: "every implicit Go check inside Step is a solver-decided fork; the job passes only if no panic outcome is feasible",
+		Bounds:           []string{"one Step from an arbitrary state: 2 interpreters x 256 opcodes x 5 mode settings; registers and memory symbolic", "the obligation is the engine's own set of Go runtime checks (index, slice, nil, divide, type assertion, explicit panic, log.Fatalf) on every feasible path"},
+		Outside:          []string{"where a wrapped access lands (bank $00) is compared with the reference model in C01", "partially mapped buses (an unmapped address is meant to fail loudly, C13)"},
+		Assumptions:      []string{"backends hold exactly 2^24 bytes (RAM over a 16 MiB slice / closures indexing a 16 MiB slice): an address >= 2^24 reaching the bus or a backend is a Go index-out-of-range failure, so 'no failure' implies every access is below 2^24"},
+		Explanation:      "every implicit Go check inside Step is a solver-decided fork; the job passes only if no panic outcome is feasible",
 		ConformanceQuick: 64, ConformanceThorough: 1024,
 	})
 	props = append(props, &PropDef{
@@ -179,10 +247,27 @@ func init() {
 			js = append(js, c12RunUntilJobs(tier)...)
 			return js
 		},
-		Bounds:      []string{"Step lemma: one Step, 2 interpreters x 256 opcodes x 5 mode settings, all state symbolic (direct-page alignment, page crossing, branch outcome, pending-interrupt latch included)", "callbacks: one Step with one registered program-counter callback at a symbolic address", "RunUntil: see the run-until jobs' own bounds (programs of at most K instructions from a fixed opcode alphabet, symbolic budget)"},
-		Outside:     []string{"runtime failures inside Step (C08)", "RunUntil for programs longer than the unrolling bound: follows from the Step lemma (cycles >= 1 makes the consumed-cycles counter strictly increasing) - argued, not solver-checked"},
-		Explanation: "Step lemma and callback obligations are per-opcode solver queries over an arbitrary state; RunUntil is the real loop run symbolically over short programs",
+		Bounds:           []string{"Step lemma: one Step, 2 interpreters x 256 opcodes x 5 mode settings, all state symbolic (direct-page alignment, page crossing, branch outcome, pending-interrupt latch included)", "callbacks: one Step with one registered program-counter callback at a symbolic address", "RunUntil: see the run-until jobs' own bounds (programs of at most K instructions from a fixed opcode alphabet, symbolic budget)"},
+		Outside:          []string{"runtime failures inside Step (C08)", "RunUntil for programs longer than the unrolling bound: follows from the Step lemma (cycles >= 1 makes the consumed-cycles counter strictly increasing) - argued, not solver-checked"},
+		Explanation:      "Step lemma and callback obligations are per-opcode solver queries over an arbitrary state; RunUntil is the real loop run symbolically over short programs",
 		ConformanceQuick: 64, ConformanceThorough: 1024,
+	})
+	props = append(props, &PropDef{
+		ID: "C03", Title: "Every Emitter instruction method emits the canonical 65816 machine encoding", Level: "model_checking",
+		Patterns: []string{"verif/harness/asmgen"}, Overlay: asmOverlay, NativeOverlay: asmNativeOverlay, PreCheck: asmUnclassified,
+		Jobs: func(tier string) []sym.Job {
+			var js []sym.Job
+			for _, m := range asmMethods() {
+				if m.Kind == "instr" || m.Kind == "label" {
+					js = append(js, sym.Job{ID: "c03/" + m.Name, Pkg: "verif/harness/asmgen", Func: "C03_" + m.Name})
+				}
+			}
+			return js
+		},
+		Bounds:           []string{"one call of each instruction-emitting method (enumerated from go/types this run) with every operand value symbolic (2^8/2^16/2^24), all 256 tracked-flag values, base unset or any bank-contained 24-bit base, listing on/off, 0-2 byte prefix (structural choices enumerated)", "target buffer of 16 symbolic bytes"},
+		Outside:          []string{"operand bytes of label-reference forms (decided after Finalize, C06)", "methods the naming convention cannot classify are reported as inconclusive, not passed"},
+		Explanation:      "expected opcode = spec/w65816 opcode matrix entry for the (mnemonic, addressing mode) the method NAME denotes; expected operand = little-endian bytes of the symbolic arguments; decode direction: the matrix' length for the emitted opcode under the tracked widths equals the emitted length",
+		ConformanceQuick: 48, ConformanceThorough: 512,
 	})
 	props = append(props, &PropDef{
 		ID: "C04", Title: "PakAddressToBus is a right inverse of BusAddressToPak", Level: "model_checking",
@@ -195,10 +280,10 @@ func init() {
 			}
 			return js
 		},
-		Bounds:      []string{"bus and pak addresses: all 2^24 values each (one symbolic 32-bit variable assumed < 2^24), 4 mappers", "no loops in the encoded functions; no unwinding bound needed"},
-		Outside:     []string{"addresses >= 2^24 (not addresses)"},
-		Exhaustive:  true,
-		Explanation: "each mapper function pair is executed symbolically from SSA for an arbitrary 24-bit address; every assertion is one bit-vector query over the whole domain",
+		Bounds:           []string{"bus and pak addresses: all 2^24 values each (one symbolic 32-bit variable assumed < 2^24), 4 mappers", "no loops in the encoded functions; no unwinding bound needed"},
+		Outside:          []string{"addresses >= 2^24 (not addresses)"},
+		Exhaustive:       true,
+		Explanation:      "each mapper function pair is executed symbolically from SSA for an arbitrary 24-bit address; every assertion is one bit-vector query over the whole domain",
 		ConformanceQuick: 32, ConformanceThorough: 512,
 	})
 	props = append(props, &PropDef{
@@ -213,10 +298,10 @@ func init() {
 			}
 			return js
 		},
-		Bounds:      []string{"bus and pak addresses: all 2^24 values each, 4 mappers", "loop-free implementation code; the oracle's table scan has a concrete trip count"},
-		Outside:     []string{"addresses >= 2^24"},
-		Exhaustive:  true,
-		Explanation: "implementation arithmetic vs. spec/cartmap (declarative transcription of the library's documented region tables, DESIGN Appendix B) for an arbitrary 24-bit address",
+		Bounds:           []string{"bus and pak addresses: all 2^24 values each, 4 mappers", "loop-free implementation code; the oracle's table scan has a concrete trip count"},
+		Outside:          []string{"addresses >= 2^24"},
+		Exhaustive:       true,
+		Explanation:      "implementation arithmetic vs. spec/cartmap (declarative transcription of the library's documented region tables, DESIGN Appendix B) for an arbitrary 24-bit address",
 		ConformanceQuick: 40, ConformanceThorough: 600,
 	})
 	props = append(props, &PropDef{
@@ -239,10 +324,10 @@ func init() {
 			}
 			return js
 		},
-		Bounds:      []string{"colour: all 2^16 values; multiplicand: all 256; divisor: all 255 non-zero; channel triples: all 2^24", "loop-free code; no unwinding bound"},
-		Outside:     []string{"divisor 0 (documented precondition; Go panics)"},
-		Exhaustive:  true,
-		Explanation: "color15 functions executed symbolically; reference = per-channel min(floor(ch*mul/div),31) computed in 32 bits",
+		Bounds:         []string{"colour: all 2^16 values; multiplicand: all 256; divisor: all 255 non-zero; channel triples: all 2^24", "loop-free code; no unwinding bound"},
+		Outside:        []string{"divisor 0 (documented precondition; Go panics)"},
+		Exhaustive:     true,
+		Explanation:    "color15 functions executed symbolically; reference = per-channel min(floor(ch*mul/div),31) computed in 32 bits",
 		TimeoutQuickMs: 8000, TimeoutThoroughMs: 60000, Fallbacks: []string{"cvc5-int", "cvc5"},
 		ConformanceQuick: 32, ConformanceThorough: 512,
 	})
